@@ -81,15 +81,15 @@ func (n *keysNode) child() *keysNode {
 
 type keysWorker struct {
 	variant string
-	p      *env.Provider
-	tab    Table
-	root   *keysNode
-	stats  *engine.Stats
-	rootVs []V
-	pool   map[string]env.ConsKey
-	names  []string
-	cons   []string // consumer ids: L="0", R="1", S="2"
-	U      time.Duration
+	p       *env.Provider
+	tab     Table
+	root    *keysNode
+	stats   *engine.Stats
+	rootVs  []V
+	pool    map[string]env.ConsKey
+	names   []string
+	cons    []string // consumer ids: L="0", R="1", S="2"
+	U       time.Duration
 }
 
 func (c Keys) NewWorker(stats *engine.Stats) (engine.Worker, error) {
